@@ -35,15 +35,29 @@ class RealBreaker:
         from redress.circuit import CircuitBreaker
         from redress.errors import ErrorClass
 
+        from types import MappingProxyType
+
         self.EC = ErrorClass
         self.now = 0
+        # the kinds of values vary with the configuration (no observable difference is allowed):
+        # any iterable for trip_on, any Mapping for class_thresholds, ints where whole
+        shape = (cfg["thr"] + cfg["W"] + cfg["R"] + len(cfg["trip"])) % 4
+        trip = [ErrorClass[k] for k in sorted(cfg["trip"])]
+        trip_on = [set(trip), frozenset(trip), list(trip), tuple(reversed(trip))][shape]
+        cthr = {ErrorClass[k]: n for k, n in cfg["cthr"].items() if n > 0}
+
+        def whole(x):
+            return int(x) if shape % 2 and x == int(x) else x
+
+        def clock():
+            return whole((vtime.BASE_TICKS + self.now) * vtime.TICK)
         self.b = CircuitBreaker(
             failure_threshold=cfg["thr"],
-            window_s=cfg["W"] * vtime.TICK,
-            recovery_timeout_s=cfg["R"] * vtime.TICK,
-            trip_on={ErrorClass[k] for k in cfg["trip"]},
-            class_thresholds={ErrorClass[k]: n for k, n in cfg["cthr"].items() if n > 0},
-            clock=lambda: (vtime.BASE_TICKS + self.now) * vtime.TICK,
+            window_s=whole(cfg["W"] * vtime.TICK),
+            recovery_timeout_s=whole(cfg["R"] * vtime.TICK),
+            trip_on=trip_on,
+            class_thresholds=MappingProxyType(cthr) if shape >= 2 else cthr,
+            clock=clock,
         )
 
     def _state(self) -> str:
